@@ -58,7 +58,7 @@ P("C03", "other",
   "registry, over an exhaustive operand catalogue x 27 operator forms; dimension errors; bare-number rule; in-place forms.",
   "Quantity arithmetic is not yet under contract; rests on the bounded stand-in only.",
   "bounded stand-in only for now (no deductive obligations yet): operand catalogue x operator forms, exhaustive.",
-  standins=["standins.c03_arith"])
+  standins=["standins.c03_arith", "standins.c03_context"])
 P("C04", "proof",
   "Every UnitsContainer operation on the C04 chain is verified against a full-view contract (exponent arithmetic for all keys, "
   "no zero entry, hash reset/coherence, fresh result, operands unmodified) by a VC generator over the real AST of pint/util.py; "
